@@ -37,6 +37,7 @@ theorem C02_lift_failure (o : Opts) (p : Project) (order : List String) (hnd : o
   obtain ⟨r, hr, hv⟩ := hg d hfail
   have hoff : r ∈ offered p order := by
     rw [offered_eq p order hnd hk]
+    apply List.mem_append_left
     apply List.mem_append_right
     rw [List.mem_flatMap]
     exact ⟨d, hd, by unfold expected; exact List.mem_append_left _ hr⟩
@@ -69,6 +70,27 @@ theorem C02_parse_failure (o : Opts) (p : Project) (order : List String)
     intro h; rw [List.length_eq_zero_iff] at h; rw [h] at hdisp; cases hdisp
   simp [this]
 
+/-- a failure detected while the main component is analysed (since 1121aa8: CFG generation for the statement
+    `component main = T(...)`) likewise -/
+theorem C02_main_failure (o : Opts) (p : Project) (order : List String)
+    (rs : List Report) (hm : p.mainReports = some rs)
+    (r : Report) (hr : r ∈ rs) (hv : VisibleError r) (hl : o.level ≤ 2)
+    (ha : r.id ∉ o.allow) :
+    r ∈ displayed o p order ∧ exitCode o p order = 1 := by
+  have hoff : r ∈ offered p order := by
+    unfold offered batches
+    simp only [List.flatten_cons, List.flatten_append, hm, Option.toList_some, List.flatten_nil, List.append_nil]
+    exact List.mem_append_right _ (List.mem_append_right _ hr)
+  have hdisp : r ∈ displayed o p order := by
+    rw [displayed_eq_filter, List.mem_filter]
+    exact ⟨hoff, keep_of_visible o r hv hl ha⟩
+  refine ⟨hdisp, ?_⟩
+  unfold exitCode
+  rw [written_eq]
+  have : (displayed o p order).length ≠ 0 := by
+    intro h; rw [List.length_eq_zero_iff] at h; rw [h] at hdisp; cases hdisp
+  simp [this]
+
 /-- `No issues found.` / exit status 0 (with nothing allowed and any level up to `error`) only if
     every definition lifted, every definition was analysed (its batch was handed to the writer)
     and the parser reported no visible error -/
@@ -77,8 +99,9 @@ theorem C02_clean (o : Opts) (p : Project) (order : List String) (hnd : order.No
     (hl : o.level ≤ 2) (ha : o.allow = []) (hex : exitCode o p order = 0) :
     (∀ d ∈ order, (p.gen d).1 = true) ∧
     (∀ r ∈ p.parseReports, ¬ VisibleError r) ∧
-    batches p order = p.parseReports :: order.map (expected p) := by
-  refine ⟨?_, ?_, batches_eq p order hnd hk⟩
+    (∀ r ∈ p.mainReports.getD [], ¬ VisibleError r) ∧
+    batches p order = p.parseReports :: (order.map (expected p) ++ p.mainReports.toList) := by
+  refine ⟨?_, ?_, ?_, batches_eq p order hnd hk⟩
   · intro d hd
     cases hgen : (p.gen d).1 with
     | true => rfl
@@ -88,12 +111,19 @@ theorem C02_clean (o : Opts) (p : Project) (order : List String) (hnd : order.No
   · intro r hr hv
     have := (C02_parse_failure o p order r hr hv hl (by simp [ha])).2
     rw [hex] at this; cases this
+  · intro r hr hv
+    cases hm : p.mainReports with
+    | none => rw [hm] at hr; cases hr
+    | some rs =>
+      rw [hm] at hr
+      have := (C02_main_failure o p order rs hm r hr hv hl (by simp [ha])).2
+      rw [hex] at this; cases this
 
 /-- non-vacuity: a project whose only definition fails to lift -/
 def exErr : Report := { id := "CS0002", level := 2, located := true, inUser := true, body := "" }
 def exP : Project :=
   { parseReports := [], known := fun n => n == "f", gen := fun _ => (false, [exErr]),
-    lookups := fun _ => [], passes := fun _ => [] }
+    lookups := fun _ => [], passes := fun _ => [], mainReports := none }
 example : GenFailuresReported exP := fun _ _ => ⟨exErr, by simp [exP], by decide, by decide⟩
 example : exitCode { level := 2, allow := [] } exP ["f"] = 1 := by decide
 
